@@ -1655,7 +1655,7 @@ Proof.
     + pose proof (not_stale t slot sh Hs Hcl) as Hn.
       pose proof Hrel as (Hp & Hr & Hw & Ha & Hpos). rewrite <- Hw.
       destruct (hw h) eqn:Ehw; cbn [negb].
-      * destruct (write_at_refines s t g h sh (N.to_nat off) data false HF Hrel Hn Ehw (Hqt sh Hs)) as [A _].
+      * destruct (write_at_refines s t g h sh (N.to_nat off) data false HF Hrel Hn Ehw (Hqt sh Hs (eq_sym Hw))) as [A _].
         pose proof (dur_write_at s d g gd h sh (N.to_nat off) data coin
                       (set_inode t (sino sh) (pwrite (iget (inodes t) (sino sh)) (N.to_nat off) data))
                       HD Hrel Ehw eq_refl eq_refl Hn A) as X.
@@ -1673,7 +1673,7 @@ Proof.
       { rewrite Ha, Hpos, Hp. rewrite (InvF_len s t g _ _ HF Hn). reflexivity. }
       rewrite Hoff. set (off := if sa sh then length (iget (inodes t) (sino sh)) else spos sh).
       destruct (hw h) eqn:Ehw; cbn [negb].
-      * destruct (write_at_refines s t g h sh off data false HF Hrel Hn Ehw (Hqt sh Hs)) as [A _].
+      * destruct (write_at_refines s t g h sh off data false HF Hrel Hn Ehw (Hqt sh Hs (eq_sym Hw))) as [A _].
         set (t1 := set_shs (set_inode t (sino sh) (pwrite (iget (inodes t) (sino sh)) off data))
                            (sset (shs t) slot (sset_pos sh (off + length data)))).
         assert (A1 : InvF (fst (write_at s h off data false)) t1 g) by (apply InvF_shs; exact A).
@@ -1688,6 +1688,7 @@ Proof.
     + pose proof (not_stale t slot sh Hs Hcl) as Hn.
       pose proof Hrel as (Hp & Hr & Hw & Ha & Hpos). rewrite <- Hw.
       destruct (hw h) eqn:Ehw; cbn [negb fst snd is_err wfs with_fs]; [|same_tree HD].
+      pose proof (Hqt sh Hs (eq_sym Hw)) as Hnt.
       rewrite Hp.
       set (t1 := set_inode t (sino sh) (resize (iget (inodes t) (sino sh)) (N.to_nat n))).
       assert (H1 : Dur (push s (PSetLen (spath sh) (N.to_nat n))) (with_dw d t1) g gd).
@@ -1826,11 +1827,12 @@ Proof.
   - assert (Hpar : parent_is_dir t p = true) by (eapply inv_pc; eauto).
     assert (Hf : is_file t p = true) by (unfold is_file; rewrite En; reflexivity).
     rewrite Hpar, Hf. cbn [negb fst snd is_err].
+    pose proof (Hqt Hf) as Hnt.
     assert (HIa : InvF (push s (PSetLen p 0)) (set_inode t i []) g) by (apply InvF_trunc; assumption).
     assert (HIb : forall b l, data = b :: l -> InvF (push (push s (PSetLen p 0)) (PWrite p 0 data)) (set_inode t i data) g).
     { intros b l Hd. assert (Hn1 : nget (names (set_inode t i [])) p = Some (EFile i)) by exact En.
       pose proof (InvF_push_data _ _ g p i (PWrite p 0 data) (write_bytes [] 0 data) HIa Hn1) as X.
-      assert (P0 : forall f, ~ In (PRename f p) (pending (push s (PSetLen p 0)))) by (apply not_tgt_push; [reflexivity|exact Hqt]).
+      assert (P0 : forall f, ~ In (PRename f p) (pending (push s (PSetLen p 0)))) by (apply not_tgt_push; [reflexivity|exact Hnt]).
       assert (P1 : is_data_op p (PWrite p 0 data) = true) by (cbn; apply path_eqb_refl).
       assert (P2 : cstep p (iget (inodes (set_inode t i [])) i) (PWrite p 0 data) = write_bytes [] 0 data)
         by (cbn [cstep inodes set_inode]; rewrite path_eqb_refl, iget_iset, N.eqb_refl; reflexivity).
@@ -1851,7 +1853,8 @@ Proof.
     set (t1 := {| names := nset (names t) p (EFile (next_ino t));
                   inodes := iset (inodes t) (next_ino t) data; next_ino := next_ino t + 1; shs := shs t |}).
     assert (Hn0 : nget (names t0) p = Some (EFile (next_ino t))) by (cbn [names t0]; rewrite nget_nset, path_eqb_refl; reflexivity).
-    assert (Hnt1 : forall f, ~ In (PRename f p) (pending (push s (CreateFile p)))) by (apply not_tgt_push; [reflexivity|exact Hqt]).
+    assert (Hnt1 : forall f, ~ In (PRename f p) (pending (push s (CreateFile p)))).
+    { apply not_tgt_push; [reflexivity|]. apply (not_tgt_fresh s t g p HF Hrc Hf). }
     assert (HIa : InvF (push (push s (CreateFile p)) (PSetLen p 0)) (set_inode t0 (next_ino t) []) g) by (apply InvF_trunc; assumption).
     assert (HIb : forall b l, data = b :: l ->
               InvF (push (push (push s (CreateFile p)) (PSetLen p 0)) (PWrite p 0 data)) t1 g).
